@@ -553,6 +553,31 @@ def _refers(fn, defs, op, local):
     return False
 
 
+def _enum_name(lexpr, v):
+    """For a value of a field-less private enum: the string its one `fn(Self) -> &str` / `fn(&Self) -> &str` method
+    returns for it (None when there is no such method, or several disagree)."""
+    outs = set()
+    n = 0
+    for g in lexpr.fns:
+        if g.kind == "closure" or g.arg_count != 1 or g.local_ty(0) not in ("&str", "&'static str"):
+            continue
+        t1 = g.local_ty(1)
+        if t1 not in (v.adt, "&" + v.adt, "&'_ " + v.adt):
+            continue
+        n += 1
+        S = sim.Sim([lexpr])
+        arg = v
+        for p in S.run(g, args={1: arg}):
+            if p.end != "return":
+                outs.add(None)
+                continue
+            b = S._deref(p.ret, p)
+            outs.add(bytes(b.b) if isinstance(b, Bytes) else None)
+    if n and len(outs) == 1 and None not in outs:
+        return Bytes(list(outs.pop()))
+    return None
+
+
 def quote_table(ctx, lexpr, pt):
     r = ctx.rule("R-QUOTE-TABLE", "' ` , ,@ expand to (quote x) (quasiquote x) (unquote x) (unquote-splicing x)")
     want = {(0x27,): b"quote", (0x60,): b"quasiquote", (0x2C, 0x61): b"unquote", (0x2C, 0x40): b"unquote-splicing"}
@@ -568,6 +593,9 @@ def quote_table(ctx, lexpr, pt):
             if isinstance(rv, Adt) and rv.variant == 0 and isinstance(rv.fields[0], Adt):
                 tk = rv.fields[0]
                 payload = S._deref(tk.fields[0], p) if tk.fields else None
+                if isinstance(payload, Adt) and payload.adt in lexpr.adts and lexpr.adts[payload.adt].get("kind") == "enum":
+                    # the shorthand as a private enum: its name is what the enum's `-> &str` method says
+                    payload = _enum_name(lexpr, payload)
                 got.add((TM(lexpr).kind(tk, S, p), bytes(payload.b) if isinstance(payload, Bytes) else None))
             else:
                 got.add(("Err", None))
